@@ -863,7 +863,7 @@ func (s *seq) sizeSave() {
 	for k := 0; k < n; k++ {
 		sz := (5 << 20) + s.r.Intn(4<<20)
 		if s.r.Chance(20) {
-			sz = maxSize - dataOff - 4 - s.r.Intn(3) + 1 // exactly at / one past the cap for a fresh file
+			sz = maxSize - dataOff - 4 - s.r.Intn(3) // the largest payloads that still fit an empty file
 		}
 		gs = append(gs, group{n: 1, term: t, typ: 0, pl: payload{run: true, n: sz, b: byte(1 + s.r.Intn(250))}})
 	}
